@@ -119,6 +119,7 @@ type Result struct {
 	Fails25 []string       `json:"f25"`
 	Fails26 []string       `json:"f26"`
 	Count   map[string]int `json:"count"`
+	Abort   bool           `json:"abort,omitempty"` // the wallet stopped following: the case ended there and the child process exits (its updater may spin)
 	Detach  bool           `json:"detach"`  // the wallet detached at least one block
 	Restore bool           `json:"restore"` // ... and a wallet-owned output was un-spent by it
 	Descr   string         `json:"descr"`
@@ -307,6 +308,8 @@ type world struct {
 // Steps[0] attach / detach operations, then the next delivery reaches the node, then Steps[1]
 // operations, ... and after len(Steps) deliveries the updater is released.
 type rescanOp struct {
+	Race  bool   // no rescan: the updater is held at the CHAIN turnstile (gateStore) - it has found its best
+	             // block in the main chain and is about to fetch the block at WorkHeight+1 - during len(Steps) deliveries
 	Learn int    // late program registered first (0: none)
 	Alias bool   // trigger: Wallet.UpdateAccountAlias (which rescans) instead of Wallet.RescanBlocks
 	Steps []int
@@ -366,6 +369,10 @@ var walletProgs = []int{PA1, PA2, PAChange, PB1}
 func keyedWalletProg(p int) bool { return (p >= PA1 && p <= PB1) || (p >= PA3 && p <= PA4) }
 
 func (g *world) pickProg() int {
+	if g.kind == "msig" && g.r.Chance(35) {
+		// a multi-signature account of the wallet: P2WSH, standard key space
+		return []int{PM22, PM23}[g.r.Intn(2)]
+	}
 	if g.kind == "rescan" && g.r.Chance(22) {
 		// a program of the accounts' keys the wallet registers late or never
 		return LatePrograms[g.r.Intn(len(LatePrograms))]
@@ -431,7 +438,7 @@ func (g *world) pickInputs(st *bstate, H uint64) []uinfo {
 		if !unlockedAt(u, H) {
 			continue
 		}
-		if u.prog < 0 { // genesis output etc.: no key
+		if u.prog < 0 || IsMsig(u.prog) { // genesis output etc.: no key; multi-signature: no witness built
 			continue
 		}
 		if keyedWalletProg(u.prog) {
@@ -749,6 +756,46 @@ func (g *world) rescanTree() {
 	}
 }
 
+// raceTree ("race" stream): a growing best branch A with 1..3 episodes in which the walletUpdater is
+// held BETWEEN its two chain reads: the next block of A wakes it, it finds its best block in the main
+// chain and stands at the turnstile of the node's store (gateStore) before fetching the block at
+// WorkHeight+1; meanwhile a side branch forking 1..3 blocks below the wallet's best block overtakes
+// A; released, the updater fetches a block of the other branch at WorkHeight+1.  Ordinary blocks and
+// reorganisations in between.
+func (g *world) raceTree() {
+	tip := TrunkLen
+	for i, n := 0, 2+g.r.Intn(4); i < n; i++ {
+		tip = g.randomBlock(tip, false)
+	}
+	for ep, neps := 0, 1+g.r.Intn(3); ep < neps; ep++ {
+		at := len(g.order)
+		p := g.path(tip) // the wallet's chain when the episode starts
+		ext := g.randomBlock(tip, false)
+		nheld := 1
+		k := len(p) - 1 - (1 + g.r.Intn(3))
+		if k < TrunkLen {
+			k = TrunkLen
+		}
+		b := p[k]
+		if g.r.Chance(85) {
+			for g.height(b) <= g.height(ext) {
+				b = g.randomBlock(b, false)
+				nheld++
+			}
+			tip = b
+		} else {
+			// the side branch stays shorter: nothing but a delay for the updater
+			b = g.randomBlock(b, false)
+			nheld++
+			tip = ext
+		}
+		g.rescans[at] = &rescanOp{Race: true, Steps: make([]int, nheld)}
+		for i, n := 0, 1+g.r.Intn(3); i < n; i++ {
+			tip = g.randomBlock(tip, false)
+		}
+	}
+}
+
 // corpus cases (scripted; run first on every check)
 func (g *world) corpus(name string) {
 	e := g.e
@@ -912,6 +959,8 @@ func RunCase(e *Env, c *Case, base string) (*Result, error) {
 		g.downTree()
 	case c.Kind == "rescan":
 		g.rescanTree()
+	case c.Kind == "race":
+		g.raceTree()
 	default:
 		g.randomTree()
 	}
@@ -934,7 +983,7 @@ func RunCase(e *Env, c *Case, base string) (*Result, error) {
 	if err != nil {
 		return nil, err
 	}
-	const patience = 20 * time.Second
+	const patience = 5 * time.Second
 	for _, bi := range e.Trunk {
 		if _, err := wn.N.Process(bi.Block); err != nil {
 			return nil, fmt.Errorf("trunk: %v", err)
@@ -1041,6 +1090,15 @@ func RunCase(e *Env, c *Case, base string) (*Result, error) {
 				g.count("obs:usable")
 				if st != 2 {
 					reported[r.ID] = true
+				}
+				// what is offered must be spendable AS OFFERED: the keeper files a utxo under (account, asset,
+				// vote key); a vote output offered as plain BTM (or the reverse) yields a spend input where
+				// consensus demands a veto input of that vote key
+				if st == 2 {
+					if onChainVote := ent.Type == storage.VoteUTXOType; onChainVote != (r.Vote != 0) {
+						reported[r.ID] = true
+						fail25("class=offered-as-wrong-kind: after delivery %d the keeper offers output %d (%s, valid height %d) at height %d; on the wallet's chain it is a %s created at %d: not spendable as offered", di, ol, recKey(r), r.Valid, d.Height, map[bool]string{true: "vote output", false: "plain output"}[onChainVote], ent.BlockHeight)
+					}
 				}
 				switch st {
 				case 0:
@@ -1171,15 +1229,38 @@ func RunCase(e *Env, c *Case, base string) (*Result, error) {
 		if (detachedNow && fresh < 3) || forceFresh {
 			fresh++
 			if err := g.freshOracle(wn, wpath, list, reported, lab, di, d, fmt.Sprintf("%s/fresh%d", base, fresh), fail24, fail25); err != nil {
+				if err == errFreshStuck {
+					res.Abort = true
+					return nil
+				}
 				return err
 			}
 		}
 		return nil
 	}
 
+	// the wallet does not settle: the case ends here with the history so far as replay (the updater
+	// may be spinning: nothing more can be learnt from this wallet, and the child process is replaced)
+	notFollowing := func(f string, a ...interface{}) (*Result, error) {
+		st := wn.W.GetWalletStatusInfo()
+		msg := fmt.Sprintf("class=wallet-not-following: "+f, a...) + fmt.Sprintf(" [wallet best %d, work %d; node best %d; deliveries so far: %s]", st.BestHeight, st.WorkHeight, wn.N.Chain.BestBlockHeight(), g.describe())
+		fail24("%s", msg)
+		fail25("%s", msg)
+		wn.Gate.Release()
+		wn.CGate.Release()
+		res.Abort = true
+		return res, nil
+	}
+
 	for di, l := range g.order {
+		// ---- "race" stream: the updater will be held between its two chain reads
+		if op := g.rescans[di]; op != nil && op.Race {
+			wn.CGate.Hold()
+			held, heldIdx = op, 0
+			g.count("race:episodes")
+		}
 		// ---- "rescan" stream: a rescan starts before this delivery
-		if op := g.rescans[di]; op != nil {
+		if op := g.rescans[di]; op != nil && !op.Race {
 			if op.Learn != 0 {
 				if err := wn.Learn(op.Learn); err != nil {
 					return nil, err
@@ -1202,15 +1283,13 @@ func RunCase(e *Env, c *Case, base string) (*Result, error) {
 				held, heldIdx = op, 0
 				n, err := wn.Gate.Allow(op.Steps[0], patience)
 				if err != nil {
-					fail24("class=wallet-not-following: rescan before delivery %d: %v", di, err)
-					fail25("class=wallet-not-following: rescan before delivery %d: %v", di, err)
+					return notFollowing("rescan before delivery %d: %v", di, err)
 				}
 				g.cnt["rescan:operations-before-held-deliveries"] += n
 				g.count("rescan:held")
 			} else {
 				if err := wn.Sync(true, patience); err != nil {
-					fail24("class=wallet-not-following: rescan before delivery %d: %v", di, err)
-					fail25("class=wallet-not-following: rescan before delivery %d: %v", di, err)
+					return notFollowing("rescan before delivery %d: %v", di, err)
 				}
 				rescanned = false
 				g.count("rescan:free-running")
@@ -1295,13 +1374,33 @@ func RunCase(e *Env, c *Case, base string) (*Result, error) {
 		}
 		cur = np
 		d.Height = wn.N.Chain.BestBlockHeight()
-		if held != nil {
+		if held != nil && held.Race {
+			heldIdx++
+			if heldIdx == 1 {
+				// the extension has woken the updater: it must now stand between its two chain reads
+				atGate, err := wn.CGate.WaitHeldOrIdle(patience)
+				if err != nil {
+					return notFollowing("race at delivery %d: %v", di, err)
+				}
+				if atGate {
+					g.count("race:updater-held-between-chain-reads")
+				}
+			}
+			if d.Step && d.K > 0 {
+				g.count("race:node-reorganised-while-held")
+			}
+			if heldIdx < len(held.Steps) {
+				continue
+			}
+			wn.CGate.Release()
+			held = nil
+			rescanned = true // the updater walks whatever the heights are
+		} else if held != nil {
 			heldIdx++
 			if heldIdx < len(held.Steps) {
 				n, err := wn.Gate.Allow(held.Steps[heldIdx], patience)
 				if err != nil {
-					fail24("class=wallet-not-following: rescan held at delivery %d: %v", di, err)
-					fail25("class=wallet-not-following: rescan held at delivery %d: %v", di, err)
+					return notFollowing("rescan held at delivery %d: %v", di, err)
 				}
 				g.cnt["rescan:operations-between-held-deliveries"] += n
 				continue
@@ -1311,13 +1410,15 @@ func RunCase(e *Env, c *Case, base string) (*Result, error) {
 		}
 		// the updater is woken only when the best height exceeds the wallet's (a rescan makes it walk anyway)
 		if err := wn.Sync(rescanned || d.Height > lastObs.WorkHeight, patience); err != nil {
-			fail24("class=wallet-not-following: after delivery %d (block %d): %v", di, l, err)
-			fail25("class=wallet-not-following: after delivery %d (block %d): %v", di, l, err)
+			return notFollowing("after delivery %d (block %d): %v", di, l, err)
 		}
 		forceFresh := di == len(g.order)-1 || (rescanned && fresh < 5)
 		rescanned = false
 		if err := observe(di, d, forceFresh); err != nil {
 			return nil, err
+		}
+		if res.Abort {
+			return res, nil
 		}
 	}
 	if poolKind && wn.QueuedBatches() > 0 {
@@ -1330,10 +1431,13 @@ func RunCase(e *Env, c *Case, base string) (*Result, error) {
 			return nil, err
 		}
 	}
+	g.cnt["race:updater-held-total"] += wn.CGate.Held
 	g.cnt["rescan:detach-while-rescanning"] += wn.Gate.DetachBehind
 	g.cnt["rescan:attach-while-rescanning"] += wn.Gate.AttachBehind
 	return res, nil
 }
+
+var errFreshStuck = fmt.Errorf("the fresh wallet does not follow its node")
 
 // freshOracle: the same accounts on a fresh node that is fed only the wallet's chain must list the
 // same utxos (C24); a block at the next height spending every utxo the history wallet calls usable
@@ -1355,9 +1459,9 @@ func (g *world) freshOracle(wn *WalletNode, wpath []int, list []Rec, reported ma
 		fail24("class=fresh-node-refuses-chain: best block differs")
 		return nil
 	}
-	if err := fn.Sync(true, 20*time.Second); err != nil {
-		fail24("class=wallet-not-following: fresh wallet: %v", err)
-		return nil
+	if err := fn.Sync(true, 5*time.Second); err != nil {
+		fail24("class=wallet-not-following: fresh wallet fed only the chain %v: %v [%s]", wpath, err, g.describe())
+		return errFreshStuck
 	}
 	g.count("oracle:fresh-wallet-comparisons")
 	fl := fn.List()
@@ -1406,7 +1510,7 @@ func (g *world) freshOracle(wn *WalletNode, wpath []int, list []Rec, reported ma
 			continue // reported by the cheap oracle as a phantom
 		}
 		u := st.avail[i]
-		if u.out.Amount() <= cl.DefaultFee {
+		if u.out.Amount() <= cl.DefaultFee || IsMsig(u.prog) {
 			continue
 		}
 		txs = append(txs, g.e.NewTx([]cl.Out{u.out}, []cl.OutSpec{{Amount: u.out.Amount() - cl.DefaultFee}}, 0))
